@@ -222,6 +222,9 @@ func c19Run(c *c19Case) (obs c19Obs) {
 		if c.Moment == "unreachable-deadline" {
 			fault = "drop during an outage" // the drop happens inside the outage block below
 		}
+		if c.Moment == "finish-then-outage" {
+			fault = "srv-finish during an outage"
+		}
 		switch fault {
 		case "srv-finish":
 			_ = sc.FinishSession(fctx)
@@ -243,6 +246,28 @@ func c19Run(c *c19Case) (obs c19Obs) {
 			big.SetContent(lime.TextDocument(strings.Repeat("y", int(3*c.ReadLim))))
 			b, _ := json.Marshal(big)
 			side.conn.Write(append(b, '\n'))
+		}
+		if c.Moment == "finish-then-outage" {
+			// the server ends the session while it cannot be reached again for a while: the client's attempts to
+			// re-establish fail, and the connection of the ended session must not stay open meanwhile (C13: the
+			// end of a session releases the connection, whoever ended it)
+			atomic.StoreInt32(&unreachable, 1)
+			octx, ocancel := context.WithTimeout(context.Background(), 2*time.Second)
+			_ = sc.FinishSession(octx)
+			ocancel()
+			closed := false
+			deadline := time.Now().Add(1500 * time.Millisecond)
+			for time.Now().Before(deadline) {
+				if side.conn.PeerClosed() {
+					closed = true
+					break
+				}
+				time.Sleep(2 * time.Millisecond)
+			}
+			if !closed {
+				problem("after the server finished the session (and while it is unreachable) the client's connection of the ended session is still open 1.5 s later")
+			}
+			atomic.StoreInt32(&unreachable, 0)
 		}
 		if c.Moment == "unreachable-deadline" && c.Handler {
 			// "during re-establishment": the listener is busy inside a handler, the connection is gone and the
@@ -318,6 +343,8 @@ func c19Key(p string) string {
 	switch {
 	case strings.Contains(p, "harness:"):
 		return "c19-harness"
+	case strings.Contains(p, "connection of the ended session is still open"):
+		return "c13-connection-left"
 	case strings.Contains(p, "busy-loops"):
 		return "c19-spin"
 	case strings.Contains(p, "deaf listener"):
@@ -354,9 +381,12 @@ func init() {
 		} else {
 			faults := []string{"srv-finish", "srv-fail", "drop", "garbage", "not-envelope", "oversize", "odd-session"}
 			for _, f := range faults {
-				for _, moment := range []string{"idle", "sending", "unreachable-deadline"} {
+				for _, moment := range []string{"idle", "sending", "unreachable-deadline", "finish-then-outage"} {
 					for _, h := range []bool{true, false} {
 						if moment == "unreachable-deadline" && (f != "drop" || !h) {
+							continue
+						}
+						if moment == "finish-then-outage" && f != "srv-finish" {
 							continue
 						}
 						cases = append(cases, &c19Case{Faults: []string{f}, Moment: moment, Handler: h, ReadLim: 4096})
